@@ -155,7 +155,7 @@ def _run_path(E, c, fnode, cls, params, canary):
         if c.setup:
             c.setup(E)
         E.ct_reset()
-        for text in c.requires:
+        for text in list(c.requires) + list(c.assumes):
             E.assume(E.spec_eval(text))
         E.heap_old = dict(E.heap)
         E.env_old = dict(env)
@@ -300,6 +300,8 @@ def check_frame(E, c):
         E.spec -= 1
         E.heap = saved_heap
     for key, arr in E.heap.items():
+        if key[0] in ("ct", "ctlen"):
+            continue            # unit-local ghost call trace
         old = E.heap_old.get(key)
         if old is None:
             # array first touched after entry: its pre-state is the base constant
